@@ -84,3 +84,41 @@ def c15_tables(repo):
 
 
 table(c15_tables)
+
+
+# ---------------------------------------------------------------- C16: illegal character sets
+def _find_local_assign(tree, func, name):
+    """ the value assigned to `name` inside the module-level function `func` (exactly one assignment) """
+    import ast
+    for node in tree.body:
+        if isinstance(node, ast.FunctionDef) and node.name == func:
+            found = [sub.value for sub in ast.walk(node) if isinstance(sub, ast.Assign)
+                     and any(isinstance(t, ast.Name) and t.id == name for t in sub.targets)]
+            if len(found) != 1:
+                raise TableError(f"{func}: expected exactly one assignment to {name}, found {len(found)}")
+            return found[0]
+    raise TableError(f"function {func} not found")
+
+
+def c16_char_sets(repo):
+    """ (illegal characters of fix_record_name_id, illegal characters of _sanitise_id_value), as sorted code lists """
+    out = []
+    for rel, func in (("antismash/common/record_processing.py", "fix_record_name_id"),
+                      ("antismash/common/secmet/features/cds_feature.py", "_sanitise_id_value")):
+        val = _literal(_find_local_assign(_module(repo, rel), func, "illegal_chars"))
+        if not isinstance(val, (set, frozenset)) or not all(isinstance(v, str) and len(v) == 1 for v in val):
+            raise TableError(f"{func}.illegal_chars is not a set of single characters")
+        out.append(sorted(ord(c) for c in val))
+    return out
+
+
+def c16_tables(repo):
+    record_chars, gene_chars = c16_char_sets(repo)
+    out = ["(* --- C16: antismash/common/record_processing.py, antismash/common/secmet/features/cds_feature.py --- *)\n",
+           coq_z_list("c16_illegal_chars", record_chars),
+           coq_z_list("c16_sanitise_chars", gene_chars), "\n"]
+    return "".join(out), {"c16_illegal_chars": "".join(map(chr, record_chars)),
+                          "c16_sanitise_chars": "".join(map(chr, gene_chars))}
+
+
+table(c16_tables)
